@@ -27,7 +27,9 @@ Names(m) == CASE m = <<"vlib_a", "cmds">> -> {"Foo", "Bar"}
 DynMods == { <<"vlib_a_extra">>, <<"userscript">> }
 Libs == { <<"vlib_a">>, <<"vlib_ab">>, <<"vlib_a", "sub">>, <<"vlib_c">>,
           <<"mpilot", "libraries", "eems", "csv">>, <<"mpilot", "libraries", "eems", "netcdf">> }
-LibSets == {<<l>> : l \in Libs} \cup (IF PairsAllowed THEN {<<a, b>> : a \in Libs, b \in Libs} ELSE {})
+\* requests: one library, an ordered pair, the package that contains both I/O libraries (a single request that selects EEMSRead/EEMSWrite twice),
+\* and the empty request (no library at all: no command at all)
+LibSets == {<<l>> : l \in Libs} \cup {<< <<"mpilot", "libraries", "eems">> >>, <<>>} \cup (IF PairsAllowed THEN {<<a, b>> : a \in Libs, b \in Libs} ELSE {})
 
 IsPrefixSeq(l, m) == Len(l) <= Len(m) /\ \A i \in 1..Len(l) : l[i] = m[i]
 \* "a.b".startswith("a") on dotted names: every full component matches, and the last requested component is a string prefix
